@@ -16,7 +16,7 @@ import (
 // point is that the model transcribes the verifiers as they are, outside the honest domain too.
 func (c *ctx) weirdSection(r *lib.RNG, out chan<- batch) {
 	res := c.res
-	n := c.f.Scale(1500, 40000)
+	n := c.f.Scale(1000, 40000)
 	hf := hashFnOf("ped")
 	pathLens := []int{0, 1, 1, 2, 3, 5, 64, 100, 125, 200, 249, 250, 251, 252, 255}
 	var b batch
